@@ -415,6 +415,35 @@ def derive_downstream(stub_info, up="a", rng=None):
       continue
     probe("G", "%s.%s(%s)" % (up, cls, ", ".join(args)),
           "%s[%s]" % (cls, ", ".join(assign[t][1] for t in tmpl)))
+  # members of NESTED classes through constants typed `Outer.Inner`. A bare
+  # name inside the nested class's body denotes a module-level class (pytype
+  # prints nested classes qualified), also when the nested class has the same
+  # short name
+  for cname, ann in sorted(stub_info["consts"].items()):
+    parts = ann.split(".") if ann and ann.replace(".", "").replace("_", "").isalnum() else []
+    if len(parts) != 2:
+      continue
+    outer = stub_info["classes"].get(parts[0])
+    inner = outer and outer["classes"].get(parts[1])
+    if not inner:
+      continue
+    for aname, aann in sorted(inner["consts"].items()):
+      if not aname.startswith("__"):
+        probe("N", "%s.%s.%s" % (up, cname, aname), aann)
+    for mname, fs in sorted(inner["funcs"].items()):
+      f = _probeable(fs)
+      if f is None or mname.startswith("__") or f["decorators"]:
+        continue
+      if f["params"] and f["params"][0]["ann"] is None and not _call_args(f, True):
+        probe("N", "%s.%s.%s()" % (up, cname, mname), f["ret"])
+  # twins: `tw_<inst>__<attr>` is A's OWN module-level read of `<inst>.<attr>`;
+  # whatever A's analysis inferred for that read must be among what B sees for
+  # the same read through the stub (member-wise, see _covers)
+  for cname, ann in sorted(stub_info["consts"].items()):
+    if cname.startswith("tw_") and "__" in cname:
+      inst, attr = cname[3:].split("__", 1)
+      if inst in stub_info["consts"]:
+        probe("t", "%s.%s.%s" % (up, inst, attr), ann)
   # from-import forms
   names = sorted(stub_info["consts"])
   if names:
@@ -545,6 +574,7 @@ def evaluate(trace, detail=False):
             "stats": stats, "digest": log.digest(), "nontrivial": False,
             "measure": None}
   a_aliases = typenorm.import_aliases(info.get("imports", []))
+  a_anc = typenorm.class_ancestors(info["classes"])
   b_src, expect = derive_downstream(info, "a", random.Random(trace["probe_seed"]))
   if pkg and trace["probe_seed"] % 2:
     # the downstream module also imports the submodule itself
@@ -631,10 +661,13 @@ def evaluate(trace, detail=False):
         stats["kinds"]["uncomparable"] = stats["kinds"].get("uncomparable", 0) + 1
         continue
       try:
-        ng = typenorm.norm(got, ("a",), b_aliases)
-        nw = typenorm.norm(want, ("a",), a_aliases)
+        ng = typenorm.norm(got, ("a",), b_aliases, a_anc)
+        nw = typenorm.norm(want, ("a",), a_aliases, a_anc)
       except SyntaxError:
         continue
+      if pname.split("_")[1] == "t":
+        if _covers(ng, nw, a_anc):
+          continue
       if ng != nw:
         line = [l for l in b_src.splitlines() if l.startswith(pname + " ")]
         violation = {"class": "TYPE_MISMATCH", "oracle": "probe_type",
@@ -667,6 +700,32 @@ def evaluate(trace, detail=False):
   measure = kernel.digest([sorted(expect.items()), trace["chain"]])
   return {"violation": violation, "stats": stats, "digest": log.digest(),
           "nontrivial": len(expect) >= 3, "measure": measure}
+
+
+def _covers(seen, inferred, ancestors=None):
+  """Is every member of the type A inferred for its own read among the members
+  of the type B sees? Any covers everything; two parameterised types with the
+  same head count as the same member (a flow-sensitive read inside A may know
+  the parameters more precisely than the declaration B sees)."""
+  def members(t):
+    return list(t[1:]) if t and t[0] == "Union" else [t]
+  sm = members(seen)
+  if ("Any",) in sm:
+    return True
+  for m in members(inferred):
+    if m == ("Any",):
+      continue
+    if m in sm:
+      continue
+    if len(m) > 1 and any(x and x[0] == m[0] for x in sm):
+      continue
+    if len(m) == 1:
+      # an instance of a subclass is an instance of the base class B sees
+      anc = set((ancestors or {}).get(m[0], ())) | ({"int"} if m[0] == "bool" else set())
+      if anc & {x[0] for x in sm if len(x) == 1}:
+        continue
+    return False
+  return True
 
 
 def _first_diff(a, b):
